@@ -345,7 +345,7 @@ def foreign_events(ctx, W):
                     dec = m.decrypt(PW['pw'])
                 c = dec.message
                 if isinstance(c, str):
-                    c = c.encode('utf-8') if dec._message.format != 't' else c.encode('latin-1')
+                    c = bytes(dec._message._contents)          # the literal's octets, whatever text decoding .message applies to them
                 e.update({'raised': False, 'after': _sha(bytes(c))})
             except Exception as ex:
                 e.update({'raised': True, 'after': '', 'exc': repr(ex)[:120]})
@@ -360,7 +360,7 @@ def foreign_events(ctx, W):
             dec = pgpy.PGPMessage.from_blob(blob).decrypt(PW['pw'])
             c = dec.message
             if isinstance(c, str):
-                c = c.encode('utf-8') if dec._message.format != 't' else c.encode('latin-1')
+                c = bytes(dec._message._contents)          # the literal's octets, whatever text decoding .message applies to them
             e.update({'raised': False, 'after': _sha(bytes(c))})
         except Exception as ex:
             e.update({'raised': True, 'after': '', 'exc': repr(ex)[:120]})
